@@ -29,7 +29,7 @@ slice expressions that rely on the constructor's invariant.
 
 ASSUMPTIONS = ['64-bit target (usize = u64)', 'slice lengths are at most isize::MAX']
 
-FLOORS = {'R12.1': 2, 'R12.2': 7, 'R12.3': 12, 'R12.4': 4, 'R12.5': 3, 'R12.6': 2}
+FLOORS = {'R12.1': 2, 'R12.2': 8, 'R12.3': 12, 'R12.4': 4, 'R12.5': 3, 'R12.6': 2, 'R12.7': 3}
 
 MV = 'rough_tlv::decoder::MessageView'
 
@@ -162,6 +162,12 @@ def r12_2(cx):
                 unavoidable = unavoidable and bool(some_t) and fn.path(some_t[0], [okb], cut_blocks=[b]) is None
         else:
             unavoidable = fn.dominates(b, okb)
+        if g == 'TruncatedHeader':
+            # the header arrays are sliced out of the buffer only after it is known to hold them
+            early = [c for c in fn.calls() if (c.matches(MV + '::offsets') or c.matches(MV + '::tags')) and not (fn.dominates(b, c.bb) and c.bb != b)]
+            cx.check(not early, 'header-checked-before-use', fn, early[0].loc() if early else fn.loc(b),
+                     'offsets() / tags() are only called after the 8*N <= len gate',
+                     fail_detail='%s slices the header arrays before the buffer is known to hold 8*N bytes: it panics on a short buffer' % short(early[0].callee) if early else '')
         cx.count_paths()
         cx.check(unavoidable and not through_fail, 'gate:' + g, fn, fn.loc(b), '%s => Err(%s); Ok is only reachable through the passing edge' % (form, g),
                  fail_detail='Ok(ret) can be reached around the %s gate (unavoidable=%s, reachable through failing edge=%s)' % (g, unavoidable, through_fail))
@@ -306,4 +312,10 @@ def r12_6(cx):
     cx.check(okf, 'find', f, None, 'find(t) = get_value(find_tag(t)?)', fail_detail='find returns %s' % [show(a)[:80] for a in alts])
 
 
-RULES = [('R12.1', r12_1), ('R12.2', r12_2), ('R12.3', r12_3), ('R12.4', r12_4), ('R12.5', r12_5), ('R12.6', r12_6)]
+def r12_7(cx):
+    """`non-decreasing` means in u32 order: the comparison the validation and find_tag use is the little-endian value order (R11.2 tag order)"""
+    from . import c11
+    compose(cx, [('R11.2', c11.tag_order)])
+
+
+RULES = [('R12.1', r12_1), ('R12.2', r12_2), ('R12.3', r12_3), ('R12.4', r12_4), ('R12.5', r12_5), ('R12.6', r12_6), ('R12.7', r12_7)]
